@@ -30,9 +30,15 @@ class Atom(RefBase[T], Generic[T]):
         if validator is not None:
             self._validate(state)
 
-    def _compare_and_set(self, old: T, new: T) -> bool:
+    def _set_if_identical(self, old: T, new: T) -> bool:
+        """Set the state of the Atom to `new` only if the current state is the very same
+        object as `old`.
+
+        `swap` computes `new` from the `old` object it read, so the new state may only be
+        installed over that object: a state which merely compares equal to it (such as
+        `1.0` or `True` for `1`) was set by another thread in the meantime."""
         with self._lock:
-            if self._state != old:
+            if self._state is not old:
                 return False
             self._state = new
             return True
@@ -42,10 +48,14 @@ class Atom(RefBase[T], Generic[T]):
         atomically set the value of the state of Atom to `new`. Return True if the
         value was swapped. Return False otherwise."""
         self._validate(new)
-        if self._compare_and_set(old, new):
-            self._notify_watches(old, new)
-            return True
-        return False
+        with self._lock:
+            current = self._state
+            # Check identity first: some values (such as NaN) do not equal themselves
+            if current is not old and current != old:
+                return False
+            self._state = new
+        self._notify_watches(current, new)
+        return True
 
     def deref(self) -> T:
         """Return the state stored within the Atom."""
@@ -54,22 +64,35 @@ class Atom(RefBase[T], Generic[T]):
 
     def reset(self, v: T) -> T:
         """Reset the state of the Atom to `v` without regard to the current value."""
-        while True:
+        return self.reset_vals(v)[0]
+
+    def reset_vals(self, v: T) -> tuple[T, T]:
+        """Reset the state of the Atom to `v` without regard to the current value,
+        returning a tuple of the new and the old value in that order."""
+        self._validate(v)
+        with self._lock:
             oldval = self._state
-            self._validate(v)
-            if self._compare_and_set(oldval, v):
-                self._notify_watches(oldval, v)
-                return v
+            self._state = v
+        self._notify_watches(oldval, v)
+        return v, oldval
 
     def swap(
         self, f: Callable[Concatenate[T, P], T], *args: P.args, **kwargs: P.kwargs
     ) -> T:
         """Atomically swap the state of the Atom to the return value of
         `f(old, *args, **kwargs)`, returning the new value."""
+        return self.swap_vals(f, *args, **kwargs)[0]
+
+    def swap_vals(
+        self, f: Callable[Concatenate[T, P], T], *args: P.args, **kwargs: P.kwargs
+    ) -> tuple[T, T]:
+        """Atomically swap the state of the Atom to the return value of
+        `f(old, *args, **kwargs)`, returning a tuple of the new and the old value in
+        that order."""
         while True:
             oldval = self._state
             newval = f(oldval, *args, **kwargs)
             self._validate(newval)
-            if self._compare_and_set(oldval, newval):
+            if self._set_if_identical(oldval, newval):
                 self._notify_watches(oldval, newval)
-                return newval
+                return newval, oldval
